@@ -149,4 +149,73 @@ theorem addInt_guard_nontrivial :
     Go.addIntOverflowGuard (BitVec.ofInt 64 9223372036854775807) 1#64 = true ∧
     Go.addIntOverflowGuard 5#64 (BitVec.ofInt 64 (-7)) = false := by decide
 
+/-! ### SETRANGE -/
+
+/-- the bytes SETRANGE stores (existing string `b`, offset `off`, new bytes `v`) -/
+def setRangeBytes (b : Bytes) (off : Nat) (v : Bytes) : Bytes :=
+  let padded := if b.length < off then b ++ List.replicate (off - b.length) 0 else b
+  padded.take off ++ v ++ padded.drop (off + v.length)
+
+/-- **SETRANGE byte by byte**, for every offset and every value: the written range holds the new bytes,
+    everything before it keeps the old bytes — zero bytes where the old string was shorter — and everything
+    after it is kept; the length is the larger of the old length and the end of the written range. -/
+theorem setRangeBytes_spec (b : Bytes) (off : Nat) (v : Bytes) :
+    (setRangeBytes b off v).length = max b.length (off + v.length) ∧
+    (∀ p, p < off → (setRangeBytes b off v)[p]? = some (b.getD p 0)) ∧
+    (∀ p, off ≤ p → p < off + v.length → (setRangeBytes b off v)[p]? = v[p - off]?) ∧
+    (∀ p, off + v.length ≤ p → (setRangeBytes b off v)[p]? = b[p]?) := by
+  unfold setRangeBytes
+  by_cases hb : b.length < off
+  · simp only [hb, ↓reduceIte]
+    have hpl : (b ++ List.replicate (off - b.length) (0 : UInt8)).length = off := by simp; omega
+    have htake : (b ++ List.replicate (off - b.length) (0 : UInt8)).take off = b ++ List.replicate (off - b.length) 0 := by
+      rw [List.take_of_length_le (by omega)]
+    have hdrop : (b ++ List.replicate (off - b.length) (0 : UInt8)).drop (off + v.length) = [] := by
+      rw [List.drop_eq_nil_of_le (by omega)]
+    rw [htake, hdrop]
+    refine ⟨by simp; omega, ?_, ?_, ?_⟩
+    · intro p hp
+      by_cases hpb : p < b.length
+      · simp [List.getElem?_append_left, hpb, List.getD]
+      · have : (b ++ List.replicate (off - b.length) (0 : UInt8) ++ v ++ [])[p]? = some 0 := by
+          simp only [List.append_nil]
+          rw [List.getElem?_append_left (by simp; omega), List.getElem?_append_right (by omega)]
+          rw [List.getElem?_replicate]
+          have : p - b.length < off - b.length := by omega
+          simp [this]
+        rw [this]
+        simp [List.getD, List.getElem?_eq_none (Nat.le_of_not_lt hpb)]
+    · intro p h1 h2
+      simp only [List.append_nil]
+      rw [List.getElem?_append_right (by simp; omega)]
+      simp; congr 1; omega
+    · intro p h1
+      simp only [List.append_nil]
+      rw [List.getElem?_eq_none (by simp; omega), List.getElem?_eq_none (by omega)]
+  · simp only [hb, ↓reduceIte]
+    have hle : off ≤ b.length := by omega
+    refine ⟨by simp; omega, ?_, ?_, ?_⟩
+    · intro p hp
+      have hpb : p < b.length := by omega
+      rw [List.append_assoc, List.getElem?_append_left (by simp; omega), List.getElem?_take_of_lt hp]
+      simp [List.getD, List.getElem?_eq_getElem hpb]
+    · intro p h1 h2
+      rw [List.append_assoc, List.getElem?_append_right (by simp; omega)]
+      simp only [List.length_take, Nat.min_eq_left hle]
+      rw [List.getElem?_append_left (by omega)]
+    · intro p h1
+      rw [List.getElem?_append_right (by simp; omega)]
+      simp only [List.length_append, List.length_take, Nat.min_eq_left hle, List.getElem?_drop]
+      congr 1; omega
+
+/-- SETRANGE stores exactly these bytes, keeps the deadline and answers the new length -/
+theorem setrange_stores (c : Ctx) (db : Db) (k b v : Bytes) (ent : Entry) (off : Int)
+    (h0 : 0 ≤ off) (h1 : ¬ (off > hugeAlloc || off + v.length > hugeAlloc) = true)
+    (hl : db.live c.now k = some ent) (hv : ent.val = .str b) :
+    cmdSetRange c db k off v =
+      R.ok (db.put k (.str (setRangeBytes b off.toNat v)) ent.exp) (vInt (setRangeBytes b off.toNat v).length) := by
+  unfold cmdSetRange setRangeBytes
+  have a0 : ¬ (off < 0) := by omega
+  simp only [a0, ↓reduceIte, h1, Bool.false_eq_true, hl, hv]
+
 end RedisEmu
